@@ -166,6 +166,9 @@ def d6b_socket_dispatches_the_line_just_read(ctx):
         return
     fa = ctx.fa(h)
     cfg = ctx.cfg(h)
+    # a request is one whole line: nothing on the way from the socket to read_line may cut a line short (a byte-limited reader returns
+    # a long line in pieces, each of which would be dispatched as a request of its own)
+    ctx.REACHES_NOT("D6", h, lambda p: p.endswith("AsyncReadExt::take") or "io::util::take::Take" in p, "a byte-limiting reader adaptor (lines would be dispatched in pieces)")
     reads = [(bb, t) for (bb, t) in h.calls() if t["f"].get("path", "").endswith("AsyncBufReadExt::read_line")]
     if len(reads) != 1:
         ctx.chk.missing("D6", "control_socket::handle: the read_line call", "%d" % len(reads))
